@@ -186,6 +186,20 @@ CLAIMED["C09"] = dict(
     technique="Coq proof over association-list model (equational map spec, counting via NoDup permutations) + file-level differential correspondence",
     design="5/C09")
 
+CLAIMED["C19"] = dict(
+    text=("Model of the UniProt header parsers (str.split with multi-character separators), the annotation dictionaries (first "
+          "record wins within a file, later file wins across files), the gene-level switch and the annotation columns. Theorems: "
+          "a general split lemma (the first occurrence of a separator whose first character occurs nowhere else in it ends the first "
+          "piece) and join(split(s)) = s; for headers composed from the grammar each parser returns the field it was composed of "
+          "(identifier, accession, entry name, description, gene name or None, organism when a gene field is present, existence "
+          "level, sequence length); first record wins; columns list each distinct id / gene / header once in row order; the "
+          "gene-level rule. Correspondence: get_protein_annotations on generated UniProt-grammar FASTA files for each identifier "
+          "rule, target and target+decoy, plus a composed-field oracle and the annotation columns."),
+    note=COMMON_NOTE + "File decoding is the runtime's. The strict > 0.5 gene-name rule is modelled as in the code. Multi-digit "
+         "existence levels and the across-file override are tied by correspondence only. Axioms: none.",
+    technique="Coq proof (string-splitting lemmas + field round trips for all well-formed field values) + file-level differential correspondence",
+    design="5/C19")
+
 ALL = [f"C{i:02d}" for i in range(1, 21)]
 
 
